@@ -963,7 +963,19 @@ func (f *Frame) invoke(instr ssa.Instruction, c *ssa.CallCommon, recv *Val, args
 	}
 	if fc := f.E.P.Cs.Funcs[key]; fc != nil {
 		all := append([]*Val{recv}, args...)
+		if !fc.Pure && len(fc.Modifies) == 0 {
+			// no modifies clause on the interface contract: the effect is inferred
+			// from every implementer in the repository
+			ms := map[string]*Sort{}
+			f.E.invokeModKeys(c, ms)
+			if _, unknown := ms["*"]; unknown {
+				f.E.fail("interface method %s has unknown effects and its contract has no modifies clause", key)
+			}
+			f.havocSummary(ms, nil, nil)
+			f.skipModifies = true
+		}
 		f.contractCallSig(instr, key, c.Signature(), fc, all, true, setResult)
+		f.skipModifies = false
 		return
 	}
 	if eff, ok := f.E.P.Spec.defaultEffect(key, nil); ok {
@@ -1065,7 +1077,7 @@ func (f *Frame) contractCallSig(instr ssa.Instruction, key string, sig *types.Si
 	}
 	// frame: havoc what the callee may modify
 	post := pre.Clone()
-	if !fc.Pure {
+	if !fc.Pure && !f.skipModifies {
 		f.applyModifies(fc, env, post, key)
 	}
 	f.st = post
@@ -1079,8 +1091,20 @@ func (f *Frame) contractCallSig(instr ssa.Instruction, key string, sig *types.Si
 	}
 	f.applyEffects(fc, env2, post)
 	for _, cl := range fc.Ensures {
-		t := f.evalBool(cl.E, env2)
-		f.assume(t, "postcondition of "+key)
+		// a postcondition that names locals of the callee (address-taken variables)
+		// cannot be stated at a call site; it is verified in the callee but not assumed here
+		func() {
+			defer func() {
+				if r := recover(); r != nil {
+					if ee, ok := r.(encError); ok && strings.Contains(ee.msg, "unknown identifier") {
+						return
+					}
+					panic(r)
+				}
+			}()
+			t := f.evalBool(cl.E, env2)
+			f.assume(t, "postcondition of "+key)
+		}()
 	}
 	if fc.Opts["deterministic"] != "" && res != nil {
 		det := f.detApply(key, key, args)
